@@ -12,7 +12,7 @@ NTG = CheckFn("ntgraph", "Model.SCC", "ntg_check", Tup(List(Nat), RulesT, GraphT
 CHECKFNS = [SCC, NTG]
 ASSUMPTIONS = [
     "dict keys are canonicalised to naturals; key type (int/str/tuple/EdgeLabel) is varied by the generator but not modelled",
-    "Tarjan correctness is proved in the kernel for all digraphs on <= 4 vertices and all insertion orders on 3; beyond that the verified-by-test oracle scc_ok judges every implementation output (see open items)",
+    "graphs are closed (distinct keys, every successor is a key): on other inputs fggs.utils.scc raises KeyError; the check function returns verdict 2 for them and the theorems assume closed g = true",
 ]
 
 def _keyfun(kind):
@@ -120,7 +120,7 @@ def run(tier, seed):
                         dict(graph=vals[-1][0], impl_components=vals[-1][1]),
                         dict(nonterminals=hvals[0][0], rules=hvals[0][1], impl_graph=hvals[0][2])],
                size_histogram=sizes, kernel_reevaluated=nk + nk2,
-               open_items=["C19_tarjan_correct (unbounded) -- until proved, the bounded theorems C19_tarjan_correct_upto4/_perm3 plus the oracle on every implementation output"])
+               open_items=[])
     return cov, violations
 
 def replay(path):
@@ -138,7 +138,7 @@ def replay(path):
 
 MANIFEST = dict(
     level="proof",
-    text="Coq theorems: nonterminal_graph model has exactly the specified vertices and edges (unbounded); the Tarjan model (which follows fggs.utils.scc statement by statement) is proved correct in the kernel for every digraph on <= 4 vertices and every insertion order on 3 (finite-domain proofs). The model is tied to /repo by running both on the same graphs (exhaustive to 4 vertices, random beyond) and requiring identical component lists; the executable specification scc_ok / ntg_ok judges every implementation output.",
-    note="Trusted: Coq kernel + vm_compute, extraction (ExtrOcamlBasic only) cross-checked against vm_compute, the Python harness that numbers dict keys. Unbounded Tarjan correctness is an open proof item; the oracle's own completeness (reachability by iteration) is not yet proved.",
+    text="Coq theorems: nonterminal_graph model has exactly the specified vertices and edges (unbounded); the Tarjan model (which follows fggs.utils.scc statement by statement) is proved correct for EVERY closed graph by an invariant proof (C19_partition: the fuel never runs out and every vertex is emitted exactly once; C19_tarjan_correct / C19_tarjan_correct_spec: the output is the dependency-ordered SCC decomposition: components = classes of mutual reachability, no edge from a component to a later one); the executable oracle scc_ok is proved sound AND complete for that Prop-level specification (C19_checker, C19_reaches_correct). The bounded theorems (all digraphs on <= 4 vertices, all insertion orders on 3) are kept as an independent in-kernel cross-check. The model is tied to /repo by running both on the same graphs (exhaustive to 4 vertices, random beyond) and requiring identical component lists; the verified oracles scc_ok / ntg_ok judge every implementation output.",
+    note="Trusted: Coq kernel + vm_compute, extraction (ExtrOcamlBasic only) cross-checked against vm_compute, the Python harness that numbers dict keys, and the statement-by-statement reading of fggs.utils.scc into Model/SCC.v (tested by the correspondence run, not proved). The theorems assume closed graphs (every successor is a key), which is what nonterminal_graph produces and outside of which the Python code raises KeyError.",
     technique="Coq proof (model + theorems) + model/implementation correspondence with verified-spec oracle",
     design_ref="DESIGN.md section 6, C19")
